@@ -779,9 +779,16 @@ def _check_brackets(plan: dict, sim: Any, dep: Any, pruners: list[Any], study0: 
         hb = _find_hyperband(pr)
         if hb is None or len(hb._pruners) == 0:
             continue
+        # the reference answer comes from a *fresh* pruner object with the same (resolved)
+        # parameters that has never seen this study's history - a pruner that memoises or
+        # otherwise remembers what it answered before initialisation must not differ from it
+        ref_hb = optuna.pruners.HyperbandPruner(min_resource=hb._min_resource, max_resource=hb._max_resource, reduction_factor=hb._reduction_factor, bootstrap_count=hb._bootstrap_count)
+        ref_hb._try_initialization(ref_study)
+        if len(ref_hb._pruners) == 0 or ref_hb._n_brackets != hb._n_brackets:
+            continue
         for t in main_trials:
             a = bracket(hb, study0, t)
-            b = bracket(hb, ref_study, ref_trials[t.number])
+            b = bracket(ref_hb, ref_study, ref_trials[t.number])
             sim.count("bracket_compared")
             sim.note("bracket", t.number, a, b)
             if a != b:
